@@ -95,6 +95,9 @@ def run(ctx, report):
                       'a slot or a condition is not dropped) -- shared with C15.D7', floor=40)
     exprobj.emit_law(R11, ctx, 'visit-id')
     exprobj.emit_law(R11, ctx, 'visit-rename')
+    R12 = report.rule('C05.D12', 'the simplifier run on the node classes as written (expression.py and expression_helper.py interpreted together: their own == decides the fixpoint): every '
+                      'family member that holds a signed constant, and every sixth member, keeps width and value', floor=40)
+    exprobj.emit_simp_on_source(R12, ctx)
     R9 = report.rule('C05.D9', 'the simplifier never modifies the expression it is given (shared with C13.D4)', floor=3)
     from .c13 import input_untouched_rule
     input_untouched_rule(ctx, R9)
